@@ -158,7 +158,13 @@ func registerHarnessIntrinsics() {
 	}
 	reg("VerifAssertEqF", func(in *Interp, fn *ssa.Function, a []Value) Value {
 		traceEq(in, a)
-		in.assert(a[0].(string), term.FSame(tt(a[1]), tt(a[2])))
+		x, y := tt(a[1]), tt(a[2])
+		if in.job.Mode == "real" && (hasLogTop(x) || hasLogTop(y)) {
+			// exp is injective: compare the exponentials, which the
+			// exp-homomorphism turns into rational functions
+			x, y = in.expOf(x), in.expOf(y)
+		}
+		in.assert(a[0].(string), term.FSame(x, y))
 		return nil
 	})
 	reg("VerifAssertEqF32", func(in *Interp, fn *ssa.Function, a []Value) Value {
